@@ -398,3 +398,27 @@ def combined_value(stmts, name, builder=None):
             cond = lit if cond is None else ('and', cond, lit)
         out = v if (out is None or cond is None) else ('ifexp', cond, v, out)
     return out
+
+
+def guard_terms(node, stop=None):
+    """[(canonical term, truth)] of the enclosing if/while tests of `node`, each read with the plain locals bound by the
+    statements that precede the test in its own block substituted (`xnew = c(x[:]); if xnew != x:` tests c(x[:]) != x)"""
+    out = []
+    for test, truth, owner in guards_of(node, stop=stop):
+        b = T.Builder()
+        par = parent(owner)
+        if par is not None and not isinstance(owner, ast.IfExp):
+            for field in ('body', 'orelse', 'finalbody'):
+                blk = getattr(par, field, None)
+                if isinstance(blk, list) and owner in blk:
+                    scope = stop if stop is not None else par
+                    for st in blk[:blk.index(owner)]:
+                        # only genuine temporaries: bound once and read once (by this test) in the whole function
+                        if isinstance(st, ast.Assign) and len(st.targets) == 1 and isinstance(st.targets[0], ast.Name):
+                            nm = st.targets[0].id
+                            stores = sum(1 for n in ast.walk(scope) if isinstance(n, ast.Name) and n.id == nm and isinstance(n.ctx, ast.Store))
+                            loads = sum(1 for n in ast.walk(scope) if isinstance(n, ast.Name) and n.id == nm and isinstance(n.ctx, ast.Load))
+                            if stores == 1 and loads == 1 and any(isinstance(n, ast.Name) and n.id == nm for n in ast.walk(test)):
+                                b.exec_stmt(st)
+        out.append((T.simp(b.t(test)), truth))
+    return out
